@@ -137,6 +137,13 @@ impl SendChannelUnreliable {
     }
 }
 
+#[cfg(feature = "verif_hooks")]
+impl ReceiveChannelUnreliable {
+    pub fn verif_memory_usage(&self) -> usize {
+        self.memory_usage_bytes
+    }
+}
+
 impl ReceiveChannelUnreliable {
     pub fn new(channel_id: u8, max_memory_usage_bytes: usize) -> Self {
         Self {
